@@ -4,19 +4,96 @@ from __future__ import annotations
 from ..engine import monitors, suite
 from ..runner import Env, Outcome
 
-THEOREMS = ["C35_stream_ordered", "C35_tick_ordered", "C35_preparing_when_queued", "C35_input_required_once"]
+THEOREMS = ["C35_stream_ordered", "C35_tick_ordered", "C35_preparing_when_queued", "C35_input_required_once",
+            "C35_run_stream_ordered", "C35_resumed_stream_ordered", "C35_running_minus_not_running", "C35_input_required_once_per_run"]
 LEAN_TARGETS = ["WfProps.C35"]
 EXPLANATION = (
     "Lean: the StepStateChanged publishes of the concatenated command lists of ANY tick history (rewind + arbitrary "
     "ticks the reducer accepts) are a valid run of the open-slot automaton (RUNNING only on a closed slot, "
     "NOT_RUNNING only on an open one) ending exactly at the in-progress table; PREPARING is emitted iff the attempt "
-    "is queued; a returned InputRequiredEvent yields exactly one publish command. Tie: reducer/runner correspondence "
-    "(the runner writes publish commands to the stream in list order - compared tick by tick incl. stream length). "
-    "Search: automaton on the real published stream, PREPARING/RUNNING counts at quiescence, InputRequiredEvent counts."
+    "is queued; a returned InputRequiredEvent yields exactly one publish command. On the runner LTS the 'reducer accepts' "
+    "proviso is discharged (no schedule from Runner.init crashes): for every fresh or RESTORED initial state and every "
+    "schedule the published stream itself - from its first event, i.e. including what the rewind at start-up re-initiates - is a "
+    "valid run of the automaton, while live its open slots are exactly the in-progress invocations; counting form: in every "
+    "stream prefix #RUNNING - #NOT_RUNNING per (step, worker) is 0 or 1, and 1 exactly for the slots in progress; over a whole "
+    "run the copies of an InputRequiredEvent on the stream equal the number of times a step returned it (no re-queue, routing, "
+    "wake-up, rewind or drain publishes it again). Tie: reducer/runner correspondence (the runner writes publish commands to "
+    "the stream in list order - compared tick by tick incl. stream length), plus the CONTENT of the lifecycle telemetry after "
+    "start-up and at the end of every run (driver op rlife), for fresh and resumed runs. Search: automaton on the real "
+    "published stream of fresh runs and of runs RESUMED from a context serialised with pending work (mid-run, after cancel / "
+    "timeout / a racing StopEvent), every step body starts under an open RUNNING slot, start-up announcements recomputed from "
+    "the snapshot, PREPARING/RUNNING counts at quiescence, InputRequiredEvent counts."
 )
 ASSUMPTIONS = suite.ENGINE_ASSUMPTIONS + [
     "'unless the run ends first': a run that exits leaves RUNNING slots unmatched by design (workers are cancelled)",
+    "step bodies do not forge StepStateChanged(RUNNING/NOT_RUNNING) events through ctx.write_event_to_stream (Act.noForge); "
+    "the whole-run InputRequiredEvent count excludes events a step writes itself, publish-request ticks and wait_for_event(waiter_event=...)",
+    "a resumed run's stream is judged from its own first event (the stream of the stopped run ends with its RUNNING slots unmatched)",
 ]
+
+
+def _resumed_runs(env: Env, out: Outcome, n: int, corpus: list[dict]) -> None:
+    """a run is stopped while it has pending work -- (a) ctx.to_dict() mid-run at a scheduler-chosen quiet point, then stopped;
+    (b) ctx.to_dict() after the run ended by a cancel, by its timeout or by a StopEvent racing with other work -- and a fresh
+    workflow is RESUMED from the JSON (Context.from_dict + run(ctx=...)).  The invocations the resumed run re-initiates at
+    start-up are step invocations like any other: the balance/order rules are applied to the resumed run's stream from its
+    first event, and the number of start-up announcements is recomputed from the snapshot."""
+    import copy
+    import random
+
+    from ..engine import live, specgen
+    rng = random.Random(env.rng.randrange(1 << 30))
+    jobs: list[tuple[dict, int, list | None, list | None]] = []
+    if env.replay is not None and isinstance(env.replay.get("payload", {}).get("case"), dict) and "resume" in env.replay["payload"]["case"]:
+        c = env.replay["payload"]["case"]["resume"]
+        jobs.append((c["spec"], c["seed"], c.get("actions1"), c.get("actions2")))
+    for item in corpus:
+        if "resume" in item:
+            c = item["resume"]
+            jobs.append((c["spec"], c["seed"], c.get("actions1"), c.get("actions2")))
+    for _ in range(n):
+        spec = specgen.gen_spec(rng, family=rng.choice(["general", "general", "fanin", "retry"]), allow_timeout=False)
+        spec["externals"] = [e for e in spec.get("externals", []) if e["op"] == "send"]
+        spec.pop("timeout", None)
+        how = rng.choice(["mid_run", "mid_run", "mid_run", "cancel", "timeout", "ended"])
+        if how == "mid_run":
+            spec["externals"].append({"op": "snapshot_stop", "after_quiet": rng.choice([0, 1, 1, 2, 2, 3, 4])})
+        else:
+            spec["snapshot_after_end"] = True
+            if how == "cancel":
+                spec["externals"].append({"op": "cancel", "after_quiet": rng.choice([0, 1, 2, 3])})
+            elif how == "timeout":
+                spec["timeout"] = rng.choice([1, 4, 10])
+        jobs.append((spec, rng.randrange(1 << 30), None, None))
+    resumed = []
+    for spec, seed, a1, a2 in jobs:
+        tr1 = live.run_spec(spec, seed=seed, replay_actions=a1)
+        out.evaluations += 1
+        snaps = [s for s in tr1.snapshots if s.get("stopped") or s.get("after_end")]
+        if not snaps or not isinstance(snaps[0]["dict"], dict):
+            out.count("resume:no_snapshot")
+            continue
+        d = snaps[0]["dict"]
+        nip = sum(len(w.get("in_progress", [])) for w in d.get("workers", {}).values())
+        nq = sum(len(w.get("queue", [])) for w in d.get("workers", {}).values())
+        kind = ("after_" + tr1.outcome[0]) if snaps[0].get("after_end") else "mid_run"
+        out.count(f"resume:{kind}:in_progress:{min(nip, 3)}:queued:{min(nq, 2)}")
+        if not (nip or nq):
+            continue  # nothing to re-initiate: the resumed run starts like a fresh one
+        spec2 = copy.deepcopy(spec)
+        spec2.pop("snapshot_after_end", None)
+        spec2.pop("timeout", None)
+        spec2["externals"] = copy.deepcopy([e for e in getattr(tr1, "remaining_externals", []) if e["op"] == "send"])
+        spec2["_resumed"] = True
+        tr2 = live.run_spec(spec2, seed=seed + 1, replay_actions=a2, resume_from=d)
+        resumed.append(tr2)
+        out.count("resume:outcome:" + tr2.outcome[0])
+        out.nontrivial(("resume", kind, repr(spec), tuple(tr1.actions), tuple(tr2.actions)))
+        case = {"resume": {"spec": spec, "seed": seed, "actions1": tr1.actions, "actions2": tr2.actions}}
+        for v in monitors.c35_resumed_announcements(tr2, d) + monitors.mon_c35(tr2):
+            v.replay = case
+            out.violations.append(v)
+    suite.runner_corr(out, resumed, "engine-runner-resumed", lifecycle=True)
 
 
 def run(env: Env) -> Outcome:
@@ -24,7 +101,7 @@ def run(env: Env) -> Outcome:
     out.rule = ("direct (state,tick) pairs + live scripted workflows under random gate schedules; non-trivial = more than 2 ticks; "
                 "distinct by (spec, schedule)")
     suite.direct_corr(env, out, env.budget(3000, 60000))
-    suite.live_runs(env, out, env.budget(400, 8000), [monitors.mon_c35], extra_specs=suite.load_corpus("C35"))
+    suite.live_runs(env, out, env.budget(400, 8000), [monitors.mon_c35], extra_specs=[c for c in suite.load_corpus("C35") if "spec" in c], lifecycle=True)
 
     def _ire_consumer(spec: dict, rng) -> dict:
         """a step RETURNS an InputRequiredEvent subclass and another step, with zero-delay retries, CONSUMES it and fails once or
@@ -40,5 +117,7 @@ def run(env: Env) -> Outcome:
                               "script": ([["gate"]] if rng.random() < 0.3 else []) + [["fail_until", rng.randint(1, 2), 4], ["ret", rng.choice(["none", "stop"])]]})
         return spec
 
-    suite.live_runs(env, out, env.budget(120, 2400), [monitors.mon_c35], gen_kwargs={"family": "general"}, mutate_spec=_ire_consumer)
+    suite.live_runs(env, out, env.budget(120, 2400), [monitors.mon_c35], gen_kwargs={"family": "general"}, mutate_spec=_ire_consumer, lifecycle=True)
+    # last, so that the streams above are what they were before this family existed
+    _resumed_runs(env, out, env.budget(200, 4000), [c for c in suite.load_corpus("C35") if "resume" in c])
     return out
